@@ -235,9 +235,11 @@ def clone_checks(ctx):
       with warnings.catch_warnings():
         warnings.simplefilter('ignore')
         est = fits.make_estimator(name, kw)
+        before = est.get_params()
         est.fit(*fits.fit_args(name, data))
         after = est.get_params()
         bad = [k for k, v in kw.items() if after.get(k) is not v]
+        bad += [k for k, v in before.items() if k not in kw and after.get(k) is not v and after.get(k) != v]   # defaults left alone stay what they were
         changed = [k for k, v in kw.items() if isinstance(v, np.ndarray) and not np.array_equal(v, snap[k], equal_nan=True)]
         c = clone(est)
         c.fit(*fits.fit_args(name, data))
@@ -254,6 +256,47 @@ def clone_checks(ctx):
                      inp, observed=np.asarray(c.components_).tolist(), expected=np.asarray(est.components_).tolist())
 
 
+def defaults_survive_fit(ctx):
+  """every parameter left at its default is still the default after fit (data-dependent defaults such as n_basis=None,
+  n_constraints=None, n_components=None are resolved for THE FIT, not written back): get_params() is unchanged, so a clone of the
+  fitted estimator fitted on OTHER data equals a fresh estimator fitted on that data"""
+  from sklearn.base import clone
+  import metric_learn
+  rng = np.random.default_rng(ctx.seed + 57)
+  for name in fits.NAMES:
+    d1, d2 = fits.make_data(rng, d=3), fits.make_data(rng, d=5)
+    quick = {k: v for k, v in fits.base_kwargs(name, d1).items() if k in ('max_iter', 'random_state', 'max_proj', 'output_iter', 'balance_param', 'sparsity_param')}
+    if name in ('RCA_Supervised',):
+      quick.update(n_chunks=4, chunk_size=2)
+    ctx.count('defaults_survive_fit', 1)
+    try:
+      with warnings.catch_warnings():
+        warnings.simplefilter('ignore')
+        est = getattr(metric_learn, name)(**quick)
+        before = est.get_params()
+        est.fit(*fits.fit_args(name, d1))
+        after = est.get_params()
+    except Exception as ex:
+      ctx.count('defaults_survive_fit', 0, skipped=1)
+      ctx.hist('defaults.fit_failed', '%s:%s' % (name, type(ex).__name__))
+      continue
+    moved = [k for k, v in before.items() if after.get(k) is not v and not (isinstance(v, (int, float, str, bool, type(None))) and type(after.get(k)) is type(v) and after.get(k) == v)]
+    if moved:
+      ctx.fail_input('clone_behaves_identically', '%s: fit wrote into the hyper-parameters %s (get_params() before / after fit differ; a clone or refit on other data inherits values resolved for the first data set)' % (name, moved),
+                     dict(estimator=name, params={k: repr(v)[:40] for k, v in quick.items()}), observed={k: repr(after.get(k))[:60] for k in moved}, expected={k: repr(before[k])[:60] for k in moved})
+      continue
+    try:
+      with warnings.catch_warnings():
+        warnings.simplefilter('ignore')
+        a = clone(est).fit(*fits.fit_args(name, d2))
+        b = getattr(metric_learn, name)(**quick).fit(*fits.fit_args(name, d2))
+      if not same_metric(name, a, b):
+        ctx.fail_input('clone_behaves_identically', '%s: a clone of a fitted estimator, fitted on other data, differs from a fresh estimator fitted on that data' % name,
+                       dict(estimator=name), observed=np.asarray(a.components_).tolist(), expected=np.asarray(b.components_).tolist())
+    except Exception as ex:
+      ctx.hist('defaults.second_fit_failed', '%s:%s' % (name, type(ex).__name__))
+
+
 def run(ctx):
   ctx.rule = ("finite enumeration (exhaustive): 17 estimators x every constructor parameter x {fresh sentinel object, "
               "ndarray, callable} -> get_params()[name] is the identical object, other parameters keep defaults, "
@@ -267,6 +310,7 @@ def run(ctx):
   ctx.build_property(gen_needed=['Src_init', 'Src_query'])
   ctor_checks(ctx)
   clone_checks(ctx)
+  defaults_survive_fit(ctx)
   # a value given through set_params is the value used: the preprocessor after an earlier fit (shared with C17)
   from props.c17 import preprocessor_history_lane
   preprocessor_history_lane(ctx)
